@@ -333,7 +333,7 @@ def rule_B2(ctx):
     rg = ctx.prog.assigned(MIDI, "MIDI_NOTE_STR_REGEX", "B2")
     from .util import regex_value
     pat, _fl = regex_value(ctx, rg, m, "B2", f"{MIDI}:MIDI_NOTE_STR_REGEX")
-    tr = rx.parse(pat)
+    tr = rx.parse(pat, _fl or 0)
     gs = rx.groups(tr)
     import re._constants as sc
     ok = len(gs) == 3 and len(tr) == 3
